@@ -55,7 +55,8 @@ def _is_strish(node) -> bool:
     if isinstance(node, ast.Constant) and isinstance(node.value, str):
         return True
     if isinstance(node, ast.BinOp) and isinstance(node.op, ast.Add):
-        return _is_strish(node.left) and _is_strish(node.right)
+        # `var + '_buffer' + buffer_id`: concatenation with at least one string literal is a string
+        return _is_strish(node.left) or _is_strish(node.right)
     return False
 
 
@@ -75,7 +76,7 @@ def render(ctx, f, node, _depth=0) -> Optional[str]:
                     parts.append("⟨" + ast.unparse(v) + "⟩")
         return "".join(parts)
     if isinstance(node, ast.BinOp) and isinstance(node.op, ast.Add) and _is_strish(node):
-        return render(ctx, f, node.left, _depth) + render(ctx, f, node.right, _depth)
+        return render_expr(ctx, f, node.left, _depth + 1) + render_expr(ctx, f, node.right, _depth + 1)
     return None
 
 
@@ -88,9 +89,10 @@ def render_expr(ctx, f, e, _depth=0) -> str:
     if isinstance(e, ast.Name) and _depth < 8:
         defs = ctx.rd(f).defs_reaching(e)
         vals = [assigned_value(d, e.id) if isinstance(d, ast.stmt) else None for d in defs]
-        if vals and all(v is not None and _is_strish(v) for v in vals):
-            ts = {render(ctx, f, v, _depth + 1) for v in vals}
-            if len(ts) == 1:
+        if vals and all(v is not None and (_is_strish(v) or isinstance(v, ast.Name)) for v in vals):
+            # plain aliases (`buf = ring`) are followed; strings are rendered
+            ts = {render_expr(ctx, f, v, _depth + 1) for v in vals}
+            if len(ts) == 1 and not (len(vals) == 1 and isinstance(vals[0], ast.Name) and ts == {"⟨" + vals[0].id + "⟩"}):
                 return ts.pop()
     return "⟨" + ast.unparse(e) + "⟩"
 
